@@ -102,7 +102,7 @@ func init() {
 			},
 			Components: map[string][]string{"real": {"all of robfig/soy, unmodified build of the current working tree"}, "stub": {"io.Writer (fault-injecting, recording; optionally with Flush or WriteString)", "soymsg.Bundle (identity / reversed / partial catalogue built from the compiled messages; or the real pomsg bundle over generated PO text)"}, "replaced": {}},
 			RequireProbes: []string{"fault_landed_on_entity", "fault_landed_on_escaper-chunk", "fault_landed_on_rawtext", "fault_landed_on_value", "fault_fired_sticky", "fault_fired_transient", "fault_fired_partial", "fault_fired_fullcount", "fault_fired_capacity", "fault_fired_with_pomsg_bundle",
-				"fault_fired_with_catalogue", "api_execute", "api_render", "writer_shape_plain", "writer_shape_flush-nil", "writer_shape_flush-err", "writer_shape_stringwriter", "writer_shape_bufferlike", "bundle_has_css", "bundle_has_msg", "bundle_has_literal", "bundle_has_sp", "bundle_has_letc", "bundle_has_log", "bundle_has_param-content", "bundle_has_call"},
+				"fault_fired_with_catalogue", "api_execute", "api_render", "writer_shape_plain", "writer_shape_flush-nil", "writer_shape_flush-err", "writer_shape_stringwriter", "writer_shape_bufferlike", "cases_with_a_system_error_value", "bundle_has_css", "bundle_has_msg", "bundle_has_literal", "bundle_has_sp", "bundle_has_letc", "bundle_has_log", "bundle_has_param-content", "bundle_has_call"},
 			ProbesNotApplicable: func(agg *Agg) []string {
 				// a renderer that buffers its output makes one write call per render (or one per few KB; the
 				// pinned tree makes about 115 per case): which kind of text a
@@ -134,7 +134,7 @@ func init() {
 				"randomInt and keys() are excluded from generated bundles",
 			},
 			Components: map[string][]string{"real": {"all of robfig/soy: unmodified build and instrumented build of the current working tree"}, "stub": {"io.Writer (fault-injecting)", "soymsg.Bundle (built from the compiled messages)", "vfail function / directive (panics on schedule)"}, "replaced": {}},
-			RequireProbes: []string{"renders_compared_with_output", "completed_js", "completed_genfile", "completed_recompile", "completed_evalexpr", "histories_compared_with_a_fresh_process", "op_render-tofu", "op_render-struct", "op_edit-struct", "op_render-nils", "op_render-tofu-nils", "op_render", "op_render-reused", "op_render-writerfault", "op_render-panic", "op_render-illtyped", "op_js", "op_genfile", "op_recompile", "fault_fired_writer", "fault_fired_panic_error", "fault_fired_panic_runtime-error",
+			RequireProbes: []string{"renders_compared_with_output", "completed_js", "completed_genfile", "completed_recompile", "completed_evalexpr", "histories_compared_with_a_fresh_process", "op_render-tofu", "op_render-struct", "op_edit-struct", "op_swap-func", "op_render-nils", "op_render-tofu-nils", "op_render", "op_render-reused", "op_render-writerfault", "op_render-panic", "op_render-illtyped", "op_js", "op_genfile", "op_recompile", "fault_fired_writer", "fault_fired_panic_error", "fault_fired_panic_runtime-error",
 				"histories_with_obligatory_directives", "failed_renders"},
 		}
 	})
